@@ -231,3 +231,45 @@ def run(prog: Program, ctx: Ctx) -> None:  # noqa: PLR0912,PLR0915
         n_rows += 1
         ctx.ob("R5", f"resolved_bases|{bases}", got == want, f"class S({', '.join(bases)}): resolved bases {got}, expected {want}", where(rb))
     ctx.expect_min("R5", n_rows, 50)
+
+    # ------------------------------------------------------------------ R6 derived views follow the current state
+    ctx.rule("R6", "resolved_bases, mro(), inherited_members and all_members are recomputed from the current state: a base that becomes available "
+                   "(its package is loaded later into the same collection) or a member added to a base shows up on the next access")
+    late: dict = {}
+
+    def get_late(path):
+        if path not in late:
+            raise Raised("KeyError")
+        return late[path]
+
+    coll2 = Obj(None, {"get_member": Native(get_late)})
+    base_obj = Obj(ccls, {"name": "Base", "path": "b.Base", "is_alias": False, "is_class": True, "bases": [], "members": {}, "modules_collection": coll2,
+                          "inherited": False}, label="b.Base")
+    member = Obj(prog.cls(f"{M}.Attribute"), {"name": "attr", "path": "b.Base.attr", "is_alias": False, "parent": base_obj, "inherited": False}, label="b.Base.attr")
+    it.class_stubs[f"{M}.Alias"] = lambda _i, name, target=None, **k: Obj(None, {"name": name, "target": target, "is_alias": True, **k}, label=f"alias {name}")
+    for view in ("resolved_bases", "mro", "inherited_members", "all_members"):
+        late.clear()
+        base_obj.attrs["members"] = {}
+        child = Obj(ccls, {"name": "Child", "path": "s.Child", "is_alias": False, "is_class": True, "bases": ["b.Base"], "members": {},
+                           "modules_collection": coll2, "inherited": False}, label="s.Child")
+
+        def read(view=view, child=child):
+            v = it.getattr(child, view)
+            if view == "mro":
+                v = it.apply(v, [], {})
+            if isinstance(v, dict):
+                return sorted(v)
+            return [o.attrs["name"] for o in v]
+
+        try:
+            it.steps = 0
+            first = read()
+            late["b.Base"] = base_obj
+            base_obj.attrs["members"] = {"attr": member}
+            second = read()
+        except Raised as r:
+            first, second = "raises", r.exc
+        want = {"resolved_bases": ["Base"], "mro": ["Base"], "inherited_members": ["attr"], "all_members": ["attr"]}[view]
+        ctx.ob("R6", f"fresh|{view}", first == [] and second == want,
+               f"Child({'b.Base'}).{view}: {first} before the base's package is loaded, {second} after (expected {want})", where(prog.lookup_method(ccls, view)[0]))
+    it.class_stubs.pop(f"{M}.Alias", None)
